@@ -12,7 +12,7 @@ ObsMatches(o, s) ==
     \* after a clear nobody has signed: a signer id still being reported means an older signature is
     \* still embedded, which its key would verify - contradicting "iff ... since the last clear"
     /\ (s = "none" => o.signed_by = "none-reported")
-    /\ o.digests_ok = TRUE /\ o.header_same = TRUE /\ o.payload_same = TRUE
+    /\ o.digests_ok = TRUE /\ o.header_same = TRUE /\ o.payload_same = TRUE /\ o.files_same = TRUE
     /\ o.panicked = FALSE
 
 Init == l = 1 /\ rej = <<>> /\ nrej = 0 /\ signer = "none" /\ hist = <<>>
